@@ -266,6 +266,16 @@ def gen_scipy(rng, tier):
                 w = [float('inf')] + [1.0] * (n - 1) if n > 1 else None
             cases.append({'op': 'align', 'rq': rq, 'b': b, 'noise': [[noise * rng.gauss(0, 1) for _ in range(3)] for _ in range(n)],
                           'weights': None if w is None else [('inf' if math.isinf(x) else x) for x in w], 'single': True})
+        # float64 tensor weights with exactly one infinite weight (exact alignment of that pair) at a random position, noisy secondaries
+        for _k in range(4):
+            n = rng.choice([2, 3, 4, 6])
+            rq = _rand_quats(rng, 'generic', 1)[0]
+            b = [[rng.uniform(-2, 2) for _ in range(3)] for _ in range(n)]
+            w = [rng.randint(1, 4) / 2 for _ in range(n)]
+            w[rng.randrange(n)] = 'inf'
+            noise = rng.choice([0.05, 0.3])
+            cases.append({'op': 'align', 'rq': rq, 'b': b, 'noise': [[noise * rng.gauss(0, 1) for _ in range(3)] for _ in range(n)],
+                          'weights': w, 'single': True})
     return cases
 
 
@@ -315,8 +325,15 @@ def impl_scipy(c):
         a = rq.apply(b) + np.array(c['noise'], dtype=float)
         w = None if c['weights'] is None else np.array([float('inf') if x == 'inf' else x for x in c['weights']], dtype=float)
         rs, rssd_s = S().align_vectors(a, b, weights=w)
-        rm, rssd_m = M().align_vectors(t64(a), t64(b), weights=None if w is None else t64(w))
-        add('align_vectors matrix', mat(rm), rs.as_matrix(), 1e-7)
+        # the same float64 tensors are used for two consecutive calls: every call has to agree with scipy and must leave its inputs alone
+        ta, tb, tw = t64(a), t64(b), (None if w is None else t64(w))
+        before = [(x.clone(), x._version) for x in (ta, tb, tw) if x is not None]
+        for call in (1, 2):
+            rm, rssd_m = M().align_vectors(ta, tb, weights=tw)
+            add(f'align_vectors matrix (call {call} with the same tensors)', mat(rm), rs.as_matrix(), 1e-7)
+        for name, x, (x0, v0) in zip(('a', 'b', 'weights'), [y for y in (ta, tb, tw) if y is not None], before):
+            add(f'align_vectors leaves its input `{name}` unchanged (values)', [float(torch.equal(x, x0))], [1.0])
+            add(f'align_vectors does not write into its input `{name}` (tensor version counter)', [float(x._version)], [float(v0)])
         # rssd is not part of 'the same rotation' (and differs from scipy for a single vector pair: mrpro returns 0): not compared
         return out
     if op == 'mean':
@@ -455,3 +472,106 @@ def _oracle_mean_dims(c, o):
 
 FAMILIES.append(Family('mean_over_dims', _gen_mean_dims, _impl_mean_dims, None, '', None, _oracle_mean_dims,
                        theorem='(scipy correspondence only: mean is not proved)'))
+
+
+# ------------------------------------------------------------------------------------------------ family: use - edit in place - use again
+# the same sequence (use; in-place edit; all representations) on mrpro and on scipy; every representation has to follow the edit
+def _gen_use_edit_use(rng, tier):
+    cases = []
+    for _ in range(24 if tier == 'quick' else 400):
+        n = rng.randint(3, 6)
+        kind = rng.choice(KINDS)
+        edits = []
+        for _e in range(rng.choice([2, 2, 3])):
+            k = rng.choice(['slice', 'slice', 'int', 'list', 'mask', 'comp', 'improper'])
+            if k == 'slice':
+                a = rng.randint(0, n - 1)
+                b_ = rng.randint(a + 1, n)
+                st = rng.choice([None, 1, 2])
+                cnt = len(range(n)[a:b_:st])
+                edits.append({'kind': 'set', 'ix': {'t': 'slice', 'v': [a, b_, st]}, 'q': _rand_quats(rng, 'generic', cnt)})
+            elif k == 'int':
+                edits.append({'kind': 'set', 'ix': {'t': 'int', 'v': rng.randint(-n, n - 1)}, 'q': _rand_quats(rng, 'generic', 1)})
+            elif k == 'list':
+                idx = rng.sample(range(n), rng.randint(1, n - 1))
+                edits.append({'kind': 'set', 'ix': {'t': 'list', 'v': idx}, 'q': _rand_quats(rng, 'generic', len(idx))})
+            elif k == 'mask':
+                m = [rng.random() < 0.5 for _ in range(n)]
+                m[rng.randrange(n)] = True
+                edits.append({'kind': 'set', 'ix': {'t': 'mask', 'v': m}, 'q': _rand_quats(rng, 'generic', sum(m))})
+            elif k == 'comp':
+                edits.append({'kind': 'comp', 'comp': rng.choice('xyzw')})       # component := -component (keeps the norm)
+            else:
+                edits.append({'kind': 'improper', 'v': [rng.random() < 0.5 for _ in range(n)]})
+        cases.append({'q': _rand_quats(rng, kind, n), 'kind': kind, 'first_use': rng.choice(['as_matrix', 'apply', 'apply_inverse', 'as_matrix']),
+                      'edits': edits, 'v': [[rng.randint(-5, 5) / 2 for _ in range(3)] for _ in range(n)]})
+    return cases
+
+
+def _impl_use_edit_use(c):
+    comp_index = {'z': 0, 'y': 1, 'x': 2, 'w': 3}
+    Q = np.array(c['q'], dtype=float)
+    Q = Q / np.linalg.norm(Q, axis=1, keepdims=True)
+    sign = np.ones(len(Q))
+    v = np.array(c['v'], dtype=float)
+    r = M().from_quat(t64(Q))
+    out = []
+
+    def observe(step):
+        ref = S().from_quat(Q)
+        Mref = sign[:, None, None] * ref.as_matrix()
+        tv = t64(v)
+        obs = [('as_matrix', mat(r), Mref), ('apply', r(tv).numpy(), sign[:, None] * ref.apply(v)),
+               ('apply(inverse)', r(tv, inverse=True).numpy(), sign[:, None] * ref.apply(v, inverse=True)),
+               ('as_quat (as matrix)', sign[:, None, None] * S().from_quat(r.as_quat(improper='ignore').numpy()).as_matrix(), Mref),
+               ('as_rotvec (as matrix)', sign[:, None, None] * S().from_rotvec(r.as_rotvec(improper='ignore').numpy()).as_matrix(), Mref),
+               ('inv().as_matrix()', mat(r.inv()), np.transpose(Mref, (0, 2, 1))),
+               ('is_improper', r.is_improper.numpy().astype(float), (sign < 0).astype(float))]
+        for name, a, b in obs:
+            out.append([f'{step}: {name}', np.asarray(a, dtype=float).tolist(), np.asarray(b, dtype=float).tolist(), 1e-9])
+    # first use (this is what a cache would remember)
+    if c['first_use'] == 'as_matrix':
+        r.as_matrix()
+    else:
+        r(t64(v), inverse=c['first_use'] == 'apply_inverse')
+    observe('before any edit')
+    for k, e in enumerate(c['edits']):
+        if e['kind'] == 'set':
+            ix = e['ix']
+            nq = np.array(e['q'], dtype=float)
+            nq = nq / np.linalg.norm(nq, axis=1, keepdims=True)
+            if ix['t'] == 'int':
+                r[ix['v']] = M().from_quat(t64(nq[0]))
+                Q[ix['v']] = nq[0]
+                sign[ix['v']] = 1.0
+            else:
+                tidx = slice(*ix['v']) if ix['t'] == 'slice' else torch.tensor(ix['v'])
+                nidx = slice(*ix['v']) if ix['t'] == 'slice' else np.array(ix['v'])
+                r[tidx] = M().from_quat(t64(nq))
+                Q[nidx] = nq
+                sign[nidx] = 1.0
+        elif e['kind'] == 'comp':
+            cur = getattr(r, 'quaternion_' + e['comp']).clone()
+            setattr(r, 'quaternion_' + e['comp'], -cur)
+            Q[:, comp_index[e['comp']]] *= -1
+        else:
+            r.is_improper = torch.tensor(e['v'])
+            sign = np.where(np.array(e['v']), -1.0, 1.0)
+        observe(f'after edit {k + 1} ({e["kind"]}{" " + str(e["ix"]["t"]) if "ix" in e else ""})')
+    return out
+
+
+def _oracle_use_edit_use(c, o):
+    if isinstance(o, dict) and 'raises' in o:
+        return f'use / edit / use sequence raises {o["raises"]}: {o.get("msg")}'
+    for label, a, b, tol in o:
+        d = maxdiff(a, b)
+        if d > tol:
+            return f'{label}: differs from scipy after the same sequence by {d:.2e} (first use: {c["first_use"]})'
+    return None
+
+
+FAMILIES.append(Family('use_edit_use', _gen_use_edit_use, _impl_use_edit_use, None, '', None, _oracle_use_edit_use,
+                       descr=lambda c: {'first_use': c['first_use'], 'edits': '-'.join(e['kind'] for e in c['edits'])},
+                       nontrivial=lambda c: True,
+                       theorem='(implementation vs scipy after in-place edits; the model side of item assignment is C13_getitem_setitem)'))
